@@ -264,7 +264,11 @@ func (h *Hist) Next() Step {
 		return Step{Kind: "drop-index", SQL: "DROP INDEX " + ix.Name + " ON %T", DDL: true}
 	default:
 		h.InTxn = false
-		switch r.Intn(3) {
+		switch r.Intn(4) {
+		case 3:
+			// a pure reorder: same columns, other ordinals (every index expression has to follow its column)
+			pos := []string{"FIRST", "AFTER id", "AFTER a", "AFTER b"}[r.Intn(4)]
+			return Step{Kind: "alter-reorder-column", SQL: "ALTER TABLE %T MODIFY COLUMN c " + []string{"BIGINT", "INT"}[r.Intn(2)] + " " + pos, Twin: true, DDL: true}
 		case 0:
 			if h.HasX {
 				return Step{Kind: "alter-drop-column", SQL: "ALTER TABLE %T DROP COLUMN x", Twin: true, DDL: true}
